@@ -33,7 +33,7 @@ def requirements(tier):
     return {"backward_default_vs_explicit": 300, "mtl_default_vs_explicit": 200, "overlap_rejection_checked": 40,
             "w_leaf_excluded_from_default": 100, "w_non_grad_leaf": 100, "w_detached_subgraph": 30, "w_multi_output": 100,
             "w_around_without_overlap": 10, "w_feature_is_multi_output_sibling": 100, "w_deep_chain": 10, "w_diamond": 100,
-            "w_around_through_trunk_value": 20}
+            "w_around_through_trunk_value": 20, "w_heads_share_an_intermediate_tensor_without_overlap": 5}
 
 
 def gen_backward(rng, i):
@@ -291,6 +291,9 @@ def check_mtl(case, ctx):
         ctx.count("w_around_without_overlap")
     if around_value:
         ctx.count("w_around_through_trunk_value")
+    avs = [v for h in desc["heads"] for v in h.get("around_values", [])]
+    if len(avs) != len(set(avs)) and not overlap:
+        ctx.count("w_heads_share_an_intermediate_tensor_without_overlap")
     if sibling:
         ctx.count("w_feature_is_multi_output_sibling")
     ops = {n["op"] for n in desc["trunk_nodes"]} | {n["op"] for h in desc["heads"] for n in h["nodes"]}
